@@ -168,6 +168,11 @@ pub struct Driver<'a> {
 }
 
 impl<'a> Driver<'a> {
+    pub fn with_slack(mut self, slack: u64) -> Self {
+        self.model.expiry_slack = slack;
+        self
+    }
+
     pub fn new(exec: &'a mut dyn Exec, item_limit: u32, timeout_secs: u32, loss: LossMode) -> Driver<'a> {
         let base = exec.now();
         let mut model = Model::new(item_limit, loss);
